@@ -715,7 +715,11 @@ func (d MarchingCanvas) March(cutoff float64) modeling.Mesh {
 func (d MarchingCanvas) MarchOnAttribute(attribute string, cutoff float64) modeling.Mesh {
 	for sectionAttribute, section := range d.sections {
 		if section.dataType == Float1 && sectionAttribute == attribute {
-			return d.marchFloat1(cutoff, sectionAttribute, section).
+			marched := d.marchFloat1(cutoff, sectionAttribute, section)
+			if marched.PrimitiveCount() == 0 {
+				return marched
+			}
+			return marched.
 				Transform(
 					meshops.ScaleAttribute3DTransformer{
 						Amount: vector3.One[float64]().DivByConstant(d.cubesPerUnit),
